@@ -266,3 +266,6 @@ def check_config(cfg, w, rep):
         sub = Report("C19")
         c19.check_config(cfg, w, sub)
         _import(cfg, rep, sub, ("b-hashes-what-it-reads", "b-input-slice"), "b")
+        # (e'') storing bytes the cache already holds through a link_to entry point leaves the stored copy alone: a link is
+        # published with symlink(2) only — which fails on an occupied address — never by a rename, copy or write onto the address
+        _import(cfg, rep, sub, ("a-never-copies",), "e")
